@@ -208,9 +208,18 @@ type Evidence struct {
 
 func propFlavors(prop string) []string {
 	if prop == "C20" {
-		return []string{"cover", "race", "asan", "checkptr"}
+		return []string{"plain", "cover", "race", "asan", "checkptr"}
 	}
-	return []string{"cover"}
+	return []string{"plain", "cover"}
+}
+
+func scaleEnv() float64 {
+	if s := os.Getenv("VERIF_SCALE"); s != "" {
+		if f, err := strconv.ParseFloat(s, 64); err == nil && f > 0 {
+			return f
+		}
+	}
+	return 1
 }
 
 func limitFor(tier string) time.Duration {
@@ -243,7 +252,7 @@ func doCheck(prop, tier string) int {
 		fl := flavors[fn]
 		binPath, out, err := build(fl, prop)
 		if err != nil {
-			if fn != "cover" {
+			if fn != "plain" {
 				// a sanitizer build that is unavailable is inconclusive, not a verdict
 				incon = append(incon, fmt.Sprintf("build flavour %s failed: %s", fn, firstLines(string(out), 3)))
 				continue
@@ -251,10 +260,17 @@ func doCheck(prop, tier string) int {
 			fmt.Printf("BUILD-FAILED property=%s flavour=%s\n%s\n", prop, fn, out)
 			return 2
 		}
-		oc := runChild(binPath, fl, prop, tier, seed, nil, limitFor(tier))
+		var extra []string
+		if fl.Cover {
+			// The coverage-instrumented build shares counters between all worker
+			// goroutines (heavy cache-line contention), so reach is measured on a
+			// 1/10 prefix of the same case streams; verdicts of that run count too.
+			extra = append(extra, fmt.Sprintf("VERIF_SCALE=%g", scaleEnv()*0.1))
+		}
+		oc := runChild(binPath, fl, prop, tier, seed, extra, limitFor(tier))
 		os.Remove(binPath)
 		builds = append(builds, fmt.Sprintf("%s: %.1fs", fn, oc.Wall))
-		if fn != "cover" {
+		if fn != "cover" && fn != "plain" {
 			n, kinds := countSanitizerReports(oc.Log)
 			sanReports[fn] = n
 			if n > 0 {
@@ -270,7 +286,7 @@ func doCheck(prop, tier string) int {
 			t := tail(oc.Log, 40)
 			if oc.Res != nil && oc.Res.Internal != "" {
 				internal = append(internal, oc.Res.Internal)
-			} else if fn != "cover" && sanReports[fn] > 0 {
+			} else if sanReports[fn] > 0 {
 				// already recorded as a sanitizer report
 			} else {
 				incon = append(incon, fmt.Sprintf("child process of flavour %s ended without a result (log %s): %s", fn, oc.Log, firstLines(crashLine(t), 2)))
@@ -497,14 +513,28 @@ func summarizeCells(cells map[string]int64) map[string]any {
 	return out
 }
 
+func violKey(v *mon.Violation) string {
+	return fmt.Sprintf("%s|%v|%v|%v|%d|%d|%s", v.Case.Op, v.Case.X, v.Case.N, v.Case.S, v.Case.Mode, v.Case.Def, v.Kind)
+}
+
 func mergeResults(dst, src *mon.Result, flavour string) {
 	dst.Evaluations += src.Evaluations
 	// distinct cases of the other builds are the same case lists re-run; do not add
-	for k, v := range src.Cells {
-		dst.Cells[flavour+":"+k] += v
+	if flavour != "cover" {
+		for k, v := range src.Cells {
+			dst.Cells[flavour+":"+k] += v
+		}
 	}
-	dst.Violations = append(dst.Violations, src.Violations...)
-	dst.ViolTotal += src.ViolTotal
+	seen := map[string]bool{}
+	for i := range dst.Violations {
+		seen[violKey(&dst.Violations[i])] = true
+	}
+	for i := range src.Violations {
+		if !seen[violKey(&src.Violations[i])] {
+			dst.Violations = append(dst.Violations, src.Violations[i])
+			dst.ViolTotal++
+		}
+	}
 	for _, s := range src.Inconclusive {
 		dst.Inconclusive = append(dst.Inconclusive, flavour+": "+s)
 	}
